@@ -527,17 +527,39 @@ package core
 // ---- C09: isolation and ancestors ------------------------------------------------------------
 //@ ghost lastFnLoc *Location
 //@ ghost ancErr bool gate
-//@ funcval (*Location).DoAncestors.fn
+// (assumed frames: the visitor, the provider and the parents lookup do not write the walk's own path set - it is created by
+// DoAncestors, handed only to doAncestors, and the tree has no other map[string]bool; and they do not rename locations)
+//@ funcval (*Location).doAncestors.fn
 //@   ghost-ensures lastFnLoc == arg0 && ancErr == (old(ancErr) || result != nil)
 //@   also-modifies lastFnLoc, ancErr
+//@   modifies allbut(MD:string:bool|MV:string:bool|ML:string:bool|F:core.Location.Name)
 //@ iface LocationProvider.GetLocation
 //@   ghost-ensures ancErr == (old(ancErr) || result1 != nil)
 //@   also-modifies ancErr
-//@ func (*Location).DoAncestors
+//@   modifies allbut(MD:string:bool|MV:string:bool|ML:string:bool|F:core.Location.Name)
+//@ func (*Location).getParents
+//@   modifies allbut(MD:string:bool|MV:string:bool|ML:string:bool|F:core.Location.Name)
+// the walk itself (DoAncestors starts it with an empty path)
+//@ define pathOK(path) = forall(k, string, has(path, k) ==> path[k])
+//@ define pathSame(path) = forall(k, string, has(path, k) == old(has(path, k)) && path[k] == old(path[k]))
+//@ func (*Location).doAncestors
+//@   instantiate loc.Name
+//@   requires[C09.ancestors_path_allocated]   path != nil && pathOK(path)
 //@   ensures[C09.ancestors_visit_self_last]   result == nil ==> lastFnLoc == loc
 //@   ensures[C09.ancestors_errors_propagate]  ancErr ==> result != nil
+//@   ensures[C09+C13.ancestors_loop_through_others_refused] old(has(path, loc.Name)) ==> result != nil
+//@   ensures[C09.ancestors_path_restored]     pathSame(path)
 //@   assert[C09.ancestors_self_loop_refused]  at "loc.Provider.GetLocation(ctx, parent)": parent != loc.Name
+//@   assert[C09+C13.ancestors_on_path_while_walking_parents] at "p.doAncestors(ctx, fn, path)": has(path, loc.Name)
 //@   loop 1: invariant[C09.ancestors_loop] !ancErr
+//@   loop 1: invariant[C09.ancestors_loop_name] loc.Name == old(loc.Name)
+//@   loop 1: invariant[C09.ancestors_loop_onpath] has(path, loc.Name) && pathOK(path)
+//@   loop 1: invariant[C09.ancestors_loop_rest] forall(k, string, k != loc.Name ==> has(path, k) == old(has(path, k)) && path[k] == old(path[k]))
+//@   ghost-ensures ancErr == (old(ancErr) || result != nil)
+//@   also-modifies lastFnLoc, ancErr
+//@ func (*Location).DoAncestors
+//@   ensures[C09.ancestors_visit_self_last_]   result == nil ==> lastFnLoc == loc
+//@   ensures[C09.ancestors_errors_propagate_]  ancErr ==> result != nil
 //@   ghost-ensures ancErr == (old(ancErr) || result != nil)
 //@   also-modifies lastFnLoc, ancErr
 
@@ -1053,3 +1075,14 @@ package core
 //@ extern (*github.com/gocql/gocql.Session).Query
 //@   ensures result != nil
 //@   pure-effects
+
+// C12: an operation on a location's state is one critical section: it takes the state lock at most once (a second
+// critical section - for a rollback, say - lets another request's acknowledged write be observed or undone in between).
+//@ func (*IndexedState).Add
+//@   ensures[C12.ix_Add_one_critical_section] acquired(s.RWMutex) <= old(acquired(s.RWMutex)) + 1
+//@ func (*IndexedState).Rem
+//@   ensures[C12.ix_Rem_one_critical_section] acquired(s.RWMutex) <= old(acquired(s.RWMutex)) + 1
+//@ func (*LinearState).Add
+//@   ensures[C12.lin_Add_one_critical_section] acquired(s.RWMutex) <= old(acquired(s.RWMutex)) + 1
+//@ func (*LinearState).Rem
+//@   ensures[C12.lin_Rem_one_critical_section] acquired(s.RWMutex) <= old(acquired(s.RWMutex)) + 1
